@@ -163,6 +163,7 @@ prop("C12",
          H("c12_from_slice_at_truncated_1", T, bounds="flag byte 0x41, 1 byte after the header, all contents"),
          H("c12_from_slice_at_truncated_16", T, bounds="flag byte 0x41, 16 bytes after the header (aaguid only)"),
          H("c12_from_slice_at_truncated_17", T, bounds="flag byte 0x41, 17 bytes after the header (id length cut)"),
+         H("c12_from_slice_ed_missing", T, bounds="flag byte 0x81 (ED), nothing after the header; all header bytes"),
          H("c12_flags_reserved_bits", T, bounds="all 256 flag bytes"),
          H("c12_attested_credential_id_length_guard", T, bounds="every credential id length 0..=70000"),
      ],
@@ -305,10 +306,12 @@ CS = "credential_store::verif_proofs"
 prop("C05",
      title="Credentials are used only for their own RP and as the allow/exclude lists say",
      engine="mirsym",
-     engines=[_e2.engine], e2=["get_assertion", "make_credential"],
-     functions=["Authenticator::get_assertion::{closure#0} (MIR)", "Authenticator::make_credential::{closure#0} (MIR)"],
+     engines=[_e2.engine], e2=["get_assertion", "make_credential", "stores"],
+     functions=["Authenticator::get_assertion::{closure#0} (MIR)", "Authenticator::make_credential::{closure#0} (MIR)",
+                "<Option<Passkey> as CredentialStore>::find_credentials and its closures (MIR)", "<MemoryStore as CredentialStore>::find_credentials and its closures (MIR)"],
      stubs=["every callee is an environment event"],
-     explanation="authenticator side: the lookup receives the request's rp_id and its allow list through the emptiness filter; the exclude lookup receives "
+     explanation="shipped stores: the filter predicates of the lookups, extracted from the MIR of their closures as boolean functions of the "
+                 "comparisons they make, must imply (z3) 'stored rp_id == requested rp_id' (and 'credential id is listed'); authenticator side: the lookup receives the request's rp_id and its allow list through the emptiness filter; the exclude lookup receives "
                  "rp.id and the exclude list; CredentialExcluded exactly when the lookup returned a non-empty Ok, with no store mutation",
      outside=["the shipped stores' own lookups: Option<Passkey>/MemoryStore clone and drop CoseKey (ciborium Value recursion) - CBMC does not finish (measured), "
               "and closures over iterator adaptors are beyond the MIR executor's models", "lock wrappers"],
@@ -316,10 +319,41 @@ prop("C05",
      trusted=E2_TRUST,
      )
 
-for _p, _e in (("C04", ["get_assertion", "make_credential"]), ("C11", ["get_assertion", "make_credential"]), ("C09", ["make_credential"])):
+for _p, _e in (("C04", ["get_assertion", "make_credential"]), ("C11", ["get_assertion", "make_credential"]), ("C09", ["get_assertion", "make_credential"])):
     PROPS[_p]["engines"] = [_e2.engine]
     PROPS[_p]["e2"] = _e
     PROPS[_p]["trusted"] = E2_TRUST
     PROPS[_p]["functions"] = PROPS[_p]["functions"] + ["E2: Authenticator::{make_credential,get_assertion}::{closure#0} (MIR)"]
     PROPS[_p]["technique"] = "Kani/CBMC bounded model checking (kernels) + symbolic path execution of rustc MIR with z3 (ceremony ordering / data flow)"
 PROPS["C04"]["outside"] = ["client-level mapping of userVerification to uv", "more than one Pending per suspension point"]
+
+PRF = "extensions::prf::verif_proofs"
+PROPS["C13"]["harnesses"] += [
+    H("c13_webauthn_error_from_status", CL, bounds="all 256 status bytes through StatusCode::from and WebauthnError::from"),
+    H("c13_webauthn_error_twin", CL, twin=True, bounds="all 256"),
+]
+PROPS["C13"]["functions"] += ["passkey_client::WebauthnError::from(StatusCode)"]
+PROPS["C11"]["harnesses"] += [
+    H("c11_map_rk_table", CL, bounds="criteria absent/present x residentKey {absent, discouraged, preferred, required} x requireResidentKey x authenticator options {absent, rk=false, rk=true}"),
+    H("c11_cred_props_output", CL, bounds="extensions absent / credProps {absent,false,true} x 3 store capabilities x rk"),
+]
+PROPS["C11"]["functions"] += ["Client::map_rk", "Client::registration_extension_outputs"]
+PROPS["C11"]["outside"] = ["end-to-end agreement through Client::register (whole ceremony)"]
+PROPS["C09"]["harnesses"] += [
+    H("c09_client_make_salt_len_0", CL, module=PRF, bounds="empty input"),
+    H("c09_client_make_salt_len_1", CL, module=PRF, bounds="1-byte input, all values"),
+    H("c09_client_make_salt_len_8", CL, module=PRF, bounds="8-byte input, all values"),
+    H("c09_client_prehashed_32_none", CL, module=PRF, bounds="one 32-byte pre-hashed value"),
+    H("c09_client_prehashed_32_32", CL, module=PRF, bounds="two 32-byte pre-hashed values"),
+    H("c09_client_prehashed_31_none", CL, module=PRF, bounds="31-byte first value"),
+    H("c09_client_prehashed_33_none", CL, module=PRF, bounds="33-byte first value"),
+    H("c09_client_prehashed_32_31", CL, module=PRF, bounds="valid first, 31-byte second value"),
+    H("c09_client_prehashed_32_33", CL, module=PRF, bounds="valid first, 33-byte second value"),
+    H("c09_client_prehashed_0_none", CL, module=PRF, bounds="empty first value"),
+    H("c09_client_hashed_both_values", CL, module=PRF, bounds="3-byte first and optional 2-byte second input, all values"),
+    H("c09_client_twin", CL, module=PRF, twin=True, bounds="one instance"),
+]
+PROPS["C09"]["functions"] += ["passkey_client::extensions::prf::{make_salt, convert_eval_to_ctap}"]
+PROPS["C09"]["stubs"] += ["passkey_types::crypto::sha256 -> tagged function (length + first 31 message bytes) in the client harnesses"]
+PROPS["C09"]["outside"] = ["evalByCredential on both sides (std HashMap, F4)", "the identity of HMAC-SHA-256 / SHA-256 themselves", "PRF inputs longer than 8 bytes (hashed) - the hash input is built by an iterator chain whose length is concrete per instance",
+                           "request validation that involves evalByCredential maps"]
